@@ -111,7 +111,7 @@ theorem reads_skipVA (c : Cfg) (va : VA) (h : va.Fits c) : Reads (skipVA c) (Spe
     refine Reads.bind (reads_int32 c rows hr) ?_
     have hnn : ¬ (rows < 0) := by omega
     simp only [hnn, if_false]
-    apply Reads.seekExact
+    apply Reads.skipBytesExact
     rw [hlen]; omega
 
 end Sbdf
